@@ -87,7 +87,11 @@ def job_version(job):
         names = set()
         nontriv = 0
         for lab, c in items:
-            if type(c) is not int or 'data(' in lab or 'placement(' in lab or 'format bit' in lab:
+            if pid in ('C03', 'C15'):
+                # payload/level/mask independence is the claim: every cell of the symbol was produced by code that ran
+                # with the stream, level and mask symbolic, and the obligation is that its term is this constant
+                nontriv += 1
+            elif type(c) is not int or 'data(' in lab or 'placement(' in lab or 'format bit' in lab:
                 nontriv += 1
         res['nontrivial'] = ['V%02d %s #%d' % (v + 1, mode, i) for i in range(nontriv)]
         ex = [lab for lab, c in items if type(c) is not int][:2] or [items[len(items) // 2][0]]
